@@ -1,6 +1,7 @@
 (* Model/Glob.v — executable model of Python's fnmatch.fnmatch (posix: normcase is the identity):
    `*` any run of characters (crosses "/"), `?` one character, `[seq]` / `[!seq]` with ranges,
-   an unclosed `[` is a literal, a `]` directly after `[` or `[!` belongs to the set.
+   an unclosed `[` is a literal, a `]` directly after `[` or `[!` belongs to the set; the text of a bracket expression
+   is cut into chunks at the range hyphens and reversed ranges are removed the way fnmatch.translate does it.
    fnmatch is a library oracle: this model is validated against CPython's fnmatch on generated
    (pattern, name) pairs by the leaf level of the C14 correspondence check.  No proofs here. *)
 From TL Require Import Lib.Base Model.CollectStr.
@@ -21,7 +22,9 @@ Definition special (c : ascii) : bool := aeqb c c_star || aeqb c c_qm || aeqb c 
 Definition tok1 (c : ascii) : tok :=
   if aeqb c c_star then TStar else if aeqb c c_qm then TAny else TLit c.
 
-(* contents of a bracket expression: x-y is a range, anything else a single character *)
+(* contents of a bracket expression, the simple reading: x-y is a range, anything else a single character.
+   (Proofs/GlobSets.v: fnmatch's own treatment below decides the same set except when a reversed range at the very
+   start lets a "!" surface as the first character.) *)
 Fixpoint items_of (l : list ascii) : list item :=
   match l with
   | [] => []
@@ -32,10 +35,84 @@ Fixpoint items_of (l : list ascii) : list item :=
     end
   end.
 
-Definition mk_set (stuff : list ascii) : tok :=
+Definition mk_set_simple (stuff : list ascii) : tok :=
   match stuff with
   | c :: r => if aeqb c c_bang then TSet true (items_of r) else TSet false (items_of stuff)
   | [] => TSet false []
+  end.
+
+(* What fnmatch.translate (CPython 3.12) does with stuff = pat[i:j], the text between "[" and the closing "]".
+   pat.find('-', k, j) on cur = pat[i:j] with off = k - i: Some (pat[i:k], pat[k+1:j]) *)
+Definition zero_c : ascii := Ascii.zero.
+
+Fixpoint split_dash (off : nat) (s : list ascii) : option (list ascii * list ascii) :=
+  match s with
+  | [] => None
+  | c :: r =>
+    match off with
+    | S o => match split_dash o r with Some (a, b) => Some (c :: a, b) | None => None end
+    | 0 => if aeqb c c_dash then Some ([], r)
+           else match split_dash 0 r with Some (a, b) => Some (c :: a, b) | None => None end
+    end
+  end.
+
+(* the `while True` loop (chunks.append(pat[i:k]); i = k+1; k = k+3 -- so the next search starts at offset 2 of the
+   rest) and the last chunk: pat[i:j] when it is not empty, else a "-" is appended to the chunk before it *)
+Fixpoint py_chunks (fuel off : nat) (cur : list ascii) : list (list ascii) :=
+  match fuel with
+  | 0 => [cur]
+  | S f =>
+    match split_dash off cur with
+    | None => [cur]
+    | Some (a, []) => [a ++ [c_dash]]
+    | Some (a, b) => a :: py_chunks f 2 b
+    end
+  end.
+
+(* "Remove empty ranges": for k in range(len(chunks)-1, 0, -1): if chunks[k-1][-1] > chunks[k][0]: the two chunks are
+   joined without the two end points *)
+Definition gt_c (a b : ascii) : bool := nat_of_ascii b <? nat_of_ascii a.
+
+Fixpoint py_merge (chunks : list (list ascii)) : list (list ascii) :=
+  match chunks with
+  | [] => []
+  | a :: rest =>
+    match py_merge rest with
+    | [] => [a]
+    | b :: rest' => if gt_c (last a zero_c) (hd zero_c b) then (removelast a ++ tl b) :: rest' else a :: b :: rest'
+    end
+  end.
+
+(* k = i+2 if pat[i] == '!' else i+1; without a "-" the text is taken as it is *)
+Definition first_off (stuff : list ascii) : nat :=
+  match stuff with c :: _ => if aeqb c c_bang then 2 else 1 | [] => 1 end.
+
+Definition set_chunks (stuff : list ascii) : list (list ascii) :=
+  if amem c_dash stuff then py_merge (py_chunks (S (List.length stuff)) (first_off stuff) stuff) else [stuff].
+
+(* '-'.join(chunks) (hyphens and backslashes inside a chunk escaped) as a character class of `re`: every character of a
+   chunk is a member, between two chunks lies the range from the last character of the first to the first character of
+   the second; a class text that begins with "-" (empty first chunk) has that "-" as a member *)
+Fixpoint class_items (chunks : list (list ascii)) : list item :=
+  match chunks with
+  | [] => []
+  | a :: rest =>
+    match rest with
+    | [] => map ISingle a
+    | b :: _ =>
+      match a with
+      | [] => ISingle c_dash :: class_items rest
+      | _ => map ISingle a ++ IRange (last a zero_c) (hd zero_c b) :: class_items rest
+      end
+    end
+  end.
+
+(* `if not stuff`: never matches; `elif stuff == '!'`: any character; `if stuff[0] == '!'`: negated -- tested on the
+   text AFTER the empty ranges were removed *)
+Definition mk_set (stuff : list ascii) : tok :=
+  match set_chunks stuff with
+  | (c :: r) :: rest => if aeqb c c_bang then TSet true (class_items (r :: rest)) else TSet false (class_items ((c :: r) :: rest))
+  | chunks => TSet false (class_items chunks)
   end.
 
 (* may a "]" close the set whose reversed contents so far are acc?  not when it is the first
